@@ -44,7 +44,7 @@ def one(d):
 
 
 def main():
-    dirs = sorted(glob.glob(os.path.join(VERIF, "seeded", "*")))
+    dirs = sorted(d for d in glob.glob(os.path.join(VERIF, "seeded", "*")) if os.path.isdir(d))
     if len(sys.argv) > 1:
         dirs = [d for d in dirs if os.path.basename(d) in sys.argv[1:]]
     with cf.ThreadPoolExecutor(max_workers=6) as ex:
